@@ -33,7 +33,8 @@ fn permutations(n: usize) -> Vec<Vec<usize>> {
     out
 }
 
-const FIXED: [&str; 6] = [
+const FIXED: [&str; 9] = [
+    ".macro inc\n    addi a0, a0, 1\n", ".macro", "main:\n    li a7, 10\n    ecall\n.macro m\n    addi a0, a0, 1\n.end_macro\n",
     "main:\n    li a0, 3\n    jal f\n    li a7, 10\n    ecall\nf:\n    beqz a0, done\n    addi sp, sp, -4\n    sw ra, 0(sp)\n    addi a0, a0, -1\n    jal f\n    lw ra, 0(sp)\n    addi sp, sp, 4\ndone:\n    ret\n",
     "main:\n    jal f\n    li a7, 10\n    ecall\nf:\n    addi sp, sp, -4\n    sw ra, 0(sp)\n    jal g\n    lw ra, 0(sp)\n    addi sp, sp, 4\n    ret\ng:\n    addi sp, sp, -4\n    sw ra, 0(sp)\n    jal f\n    lw ra, 0(sp)\n    addi sp, sp, 4\n    ret\n",
     "main:\n    li s0, 4\nloop:\n    mv a0, s0\n    jal f\n    addi s0, s0, -1\n    bnez s0, loop\n    li a7, 10\n    ecall\nf:\n    beqz a0, z\n    li a0, 1\n    ret\nz:\n    li a0, 2\n    ret\n",
@@ -71,6 +72,6 @@ pub fn search(v: &serde_json::Value) -> i32 {
             if j == k { break; }
         }
     }
-    println!("linting finished on all {n} runs (6 hand-written programs with recursion, mutual recursion, loops around calls, aliases, a handler; every program of 2 or 3 functions with bodies from a pool of 5 that return, jump or branch into a shared tail or fall through, called in every order; 4 runs each)");
+    println!("linting finished on all {n} runs (9 hand-written programs with unterminated macros, recursion, mutual recursion, loops around calls, aliases, a handler; every program of 2 or 3 functions with bodies from a pool of 5 that return, jump or branch into a shared tail or fall through, called in every order; 4 runs each)");
     0
 }
